@@ -91,6 +91,16 @@ func recordDecode(rec *recorder, rng *rand.Rand, trials int, repo string) int {
 		if n < 0 {
 			n = -n
 		}
+		if rng.Intn(12) == 0 { // a long payload: block-wise readers switch code paths beyond a few hundred elements
+			long := []int{257, 513, 520, 600, 1025}[rng.Intn(5)]
+			if rng.Intn(2) == 0 {
+				x.Dims = []int64{int64(long)}
+			} else {
+				x.Dims = []int64{2, int64(long / 2)}
+				long = 2 * (long / 2)
+			}
+			n = long
+		}
 		cnt := n
 		switch rng.Intn(8) {
 		case 0:
